@@ -172,7 +172,7 @@ pub fn gated_case(p: &Profile) -> BoxedStrategy<Case> {
             }
             callers.extend(free_callers);
             let must: Vec<u8> = (k as u8..objects).collect();
-            let cfg = Cfg { pool: p0, objects, gates: k as u8, streams: 0, level: Level::Desync, unlock_points, spurious: vec![], pre_open: vec![], root_holds: true, double_wake: false, gate_keep_all: false, stream_always_register: false, keep_going_after_early_destroy: false, despawn_without_quiescence: false, unwinding_drops: false, consumer_probe_polls: false, chained_streams: false };
+            let cfg = Cfg { pool: p0, objects, gates: k as u8, streams: 0, level: Level::Desync, unlock_points, spurious: vec![], pre_open: vec![], root_holds: true, double_wake: false, gate_keep_all: false, stream_always_register: false, keep_going_after_early_destroy: false, despawn_without_quiescence: false, unwinding_drops: false, consumer_probe_polls: false, chained_streams: false, stream_self_wakes: 0 };
             let phase0 = Phase { callers, ..Default::default() };
             let phase1 = Phase { root: vec![RootAct::SetPoolPublic { n, atomic: nraw % 4 != 0 }], must_finish_objs: must, ..Default::default() };
             return Case { cfg, phases: vec![phase0, phase1], sched };
@@ -209,7 +209,7 @@ pub fn gated_case(p: &Profile) -> BoxedStrategy<Case> {
         let _ = first_free;
         callers.extend(free_callers);
         let must: Vec<u8> = (k as u8..objects).collect();
-        let cfg = Cfg { pool, objects, gates, streams: 0, level: Level::Desync, unlock_points, spurious: vec![], pre_open: vec![], root_holds: true, double_wake: false, gate_keep_all: false, stream_always_register: false, keep_going_after_early_destroy: false, despawn_without_quiescence: false, unwinding_drops: false, consumer_probe_polls: false, chained_streams: false };
+        let cfg = Cfg { pool, objects, gates, streams: 0, level: Level::Desync, unlock_points, spurious: vec![], pre_open: vec![], root_holds: true, double_wake: false, gate_keep_all: false, stream_always_register: false, keep_going_after_early_destroy: false, despawn_without_quiescence: false, unwinding_drops: false, consumer_probe_polls: false, chained_streams: false, stream_self_wakes: 0 };
         let phase0 = Phase { callers, must_finish_objs: if k > 0 { must } else { vec![] }, ..Default::default() };
         Case { cfg, phases: vec![phase0], sched }
     })
@@ -239,10 +239,11 @@ pub fn panic_case(p: &Profile) -> BoxedStrategy<Case> {
     healthy.stepw = StepW { awaitgate: 0, opengate: 0, blockongate: 0, nested_sync: 0, nested_desync: 1, nested_futdesync: 0, awaitfutsync: 0, awaitfutdesync: 0, ..StepW::default() };
     let bystanders = vec(vec(op_strategy(&healthy), 0..=3), 0..=2);
     let phase2 = vec(vec(op_strategy(&healthy), 1..=4), 1..=3);
-    (1u8..=3, 2u8..=4, 0u8..10, bystanders, phase2, sched_strategy(p.sched_bytes), prop::bool::weighted(0.3), vec(0u8..5, 1..=3), (prop::bool::weighted(0.3), vec((any::<u8>(), 0u8..4), 0..=2))).prop_map(|(pool, objects, ctx, mut by, mut ph2, sched, unlock_points, attempts, (quiet, parked))| {
+    (1u8..=3, 2u8..=4, 0u8..11, bystanders, phase2, sched_strategy(p.sched_bytes), prop::bool::weighted(0.3), vec(0u8..5, 1..=3), (prop::bool::weighted(0.3), vec((any::<u8>(), 0u8..4), 0..=2), prop::bool::weighted(0.2))).prop_map(|(pool, objects, ctx, mut by, mut ph2, sched, unlock_points, attempts, (quiet, parked, second))| {
         // the panicking op and its runner context
         let mut callers: Vec<Vec<Op>> = vec![];
         let panic_body = vec![Step::Touch, Step::Yield, Step::Panic];
+        let mut stale_rewake = false;
         match ctx {
             // pool thread runs a plain job
             0 => callers.push(vec![Op::Desync { o: 0, body: panic_body, id: 0 }]),
@@ -269,15 +270,31 @@ pub fn panic_case(p: &Profile) -> BoxedStrategy<Case> {
                 callers.push(vec![Op::After { o: 0, g: 0, body: vec![Step::Touch, Step::Panic], slot: 0, id: 0 }, Op::DropFut { slot: 0 }]);
                 callers.push(vec![Op::Yield, Op::OpenGate { g: 0 }]);
             }
+            // an earlier future operation of the object was suspended on gate 0 and has completed; then a plain job panics. The
+            // gate still has the old waker: phase 1 begins by firing it again (a stale wake-up for a queue that has panicked since)
+            10 => {
+                callers.push(vec![Op::FutDesync { o: 0, body: vec![Step::AwaitGate { g: 0 }, Step::Touch], slot: 0, id: 0 }, Op::Await { slot: 0 }, Op::Desync { o: 0, body: panic_body, id: 0 }]);
+                callers.push(vec![Op::Yield, Op::Yield, Op::OpenGate { g: 0 }]);
+                stale_rewake = true;
+            }
             // a plain job that holds a handle on a healthy object panics: the handle is released while unwinding
             _ => callers.push(vec![Op::Desync { o: 0, body: vec![Step::NestedDesync { o: 255, body: vec![Step::Touch], id: 0 }, Step::Yield, Step::Panic], id: 0 }]),
         }
         // operations parked on a closed gate hold their queue: they get the last object to themselves
         let parked = if objects >= 3 { parked } else { vec![] };
-        let nhealthy = objects as usize - 1 - if parked.is_empty() { 0 } else { 1 };
+        // optionally a second object (o1) loses a pool thread to a panic of its own in the same phase: two dead threads to reap at once
+        let second = second && objects as usize >= 3 + if parked.is_empty() { 0 } else { 1 };
+        let first_healthy = if second { 2 } else { 1 };
+        // (each of the two panicking jobs needs a thread of its own to be certain to run, and die, in this phase)
+        let pool = if second { pool.max(2) } else { pool };
+        if second {
+            let o1 = ((256usize + objects as usize - 1) / objects as usize).min(255) as u8;
+            callers.push(vec![Op::Desync { o: o1, body: vec![Step::Touch, Step::Panic], id: 0 }]);
+        }
+        let nhealthy = objects as usize - first_healthy - if parked.is_empty() { 0 } else { 1 };
         for c in by.iter_mut() {
             for op in c.iter_mut() {
-                remap_obj(op, 1, nhealthy, objects as usize);
+                remap_obj(op, first_healthy, nhealthy, objects as usize);
             }
         }
         callers.extend(by);
@@ -304,7 +321,7 @@ pub fn panic_case(p: &Profile) -> BoxedStrategy<Case> {
         }
         for c in ph2.iter_mut() {
             for op in c.iter_mut() {
-                remap_obj(op, 1, nhealthy, objects as usize);
+                remap_obj(op, first_healthy, nhealthy, objects as usize);
             }
         }
         // attempts on the panicked object, one caller each so that one failing does not hide the next
@@ -318,9 +335,9 @@ pub fn panic_case(p: &Profile) -> BoxedStrategy<Case> {
             };
             ph2.push(vec![Op::Attempt { o: 0, kind, id: 0 }]);
         }
-        let cfg = Cfg { pool, objects, gates: 2, streams: 0, level: Level::Desync, unlock_points, spurious: vec![], pre_open: vec![], root_holds: true, double_wake: false, gate_keep_all: false, stream_always_register: false, keep_going_after_early_destroy: false, despawn_without_quiescence: false, unwinding_drops: false, consumer_probe_polls: false, chained_streams: false };
-        let phase0 = Phase { callers, expect_panicked: vec![0], ..Default::default() };
-        let phase1 = Phase { callers: ph2, capacity_probe: true, ..Default::default() };
+        let cfg = Cfg { pool, objects, gates: 2, streams: 0, level: Level::Desync, unlock_points, spurious: vec![], pre_open: vec![], root_holds: true, double_wake: false, gate_keep_all: false, stream_always_register: false, keep_going_after_early_destroy: false, despawn_without_quiescence: false, unwinding_drops: false, consumer_probe_polls: false, chained_streams: false, stream_self_wakes: 0 };
+        let phase0 = Phase { callers, expect_panicked: if second { vec![0, 1] } else { vec![0] }, ..Default::default() };
+        let phase1 = Phase { callers: ph2, capacity_probe: true, root: if stale_rewake { vec![RootAct::Rewake { g: 0 }] } else { vec![] }, ..Default::default() };
         if quiet {
             // quiet aftermath: nothing is scheduled after the panic; the final stage opens the gates and everything that was
             // parked on the healthy objects must still finish
@@ -339,6 +356,9 @@ pub fn poolchange_case(p: &Profile) -> BoxedStrategy<Case> {
         2 => (0u8..=3).prop_map(|n| vec![RootAct::SetPool { n }]),
         1 => (0u8..=3, prop::bool::ANY).prop_map(|(n, atomic)| vec![RootAct::SetPoolPublic { n, atomic }, RootAct::Despawn]),
         1 => (0u8..=2).prop_map(|n| vec![RootAct::SpawnThread, RootAct::SetPool { n }, RootAct::Despawn]),
+        // the public setter on its own: lowered without despawning, raised again, ...
+        1 => (0u8..=3, prop::bool::ANY).prop_map(|(n, atomic)| vec![RootAct::SetPoolPublic { n, atomic }]),
+        2 => (0u8..=3, 0u8..=3, prop::bool::ANY).prop_map(|(a, b, atomic)| vec![RootAct::SetPoolPublic { n: a, atomic }, RootAct::SetPoolPublic { n: b, atomic: true }]),
     ];
     (cfg_strategy(&p), phase_strategy(&p), acts, phase_strategy(&p), sched_strategy(p.sched_bytes), prop::bool::ANY, prop::bool::ANY).prop_map(|(mut cfg, ph0, acts, mut ph1, sched, two, dwq)| {
         cfg.root_holds = true;
@@ -574,6 +594,7 @@ pub fn labels(id: &str, case: &Case, out: &Outcome) -> Vec<String> {
     flag(s.pipe_dropped_while_job > 0, "pipe-dropped-while-poll-job-active");
     flag(out.status == vsched::rt::Status::StepBound, "step-bound");
     flag(s.self_wakes > 0, "self-wake-during-poll");
+    flag(s.stream_self_wakes > 0, "stream-woke-itself-during-poll_next");
     flag(s.chained_closes > 0, "stream-ended-by-drop-of-another-pipe");
     flag(s.consumer_probe_pending > 0, "consumer-polled-with-two-wakers");
     flag(s.unwinding_last_owner_drops > 0, "last-owner-dropped-while-unwinding");
